@@ -88,19 +88,24 @@ class DealLoader:
                 args = [ast.literal_eval(arg) for arg in node.args]
             except ValueError:
                 return None
-            func = cls._exec_contract(node.func)
+            func = cls._get_deal_attr(node.func)
             if not func:
                 return None
             return func(*args)
 
+        # only contracts that take no arguments can be specified without a call
+        contract = cls._get_deal_attr(node)
+        if contract is deal.pure or contract is deal.safe:
+            return contract
+        return None
+
+    @staticmethod
+    def _get_deal_attr(node: ast.AST) -> Callable | None:
         if not isinstance(node, ast.Attribute):
             return None
         if node.value.id != 'deal':
             return None
-        contract = getattr(deal, node.attr, None)
-        if contract is None:
-            return None
-        return contract
+        return getattr(deal, node.attr, None)
 
 
 def module_load(*contracts) -> None:
